@@ -151,10 +151,19 @@ def dm_case(rng, nmax=7, mmax=5, nmin=1, mmin=1, modes=VALUE_MODES, positive=Fal
         "mode": mode,
         "tags": tags,
     }
-    if int_dtypes and rng.random() < int_dtypes and all(float(x).is_integer() for r in mtx for x in r):
-        # integer-typed criteria (all of them, or mixed with float ones) holding the same values
-        allint = rng.random() < 0.5
-        c["dtypes"] = ["int64" if allint or rng.random() < 0.6 else "float64" for _ in range(m)]
+    if int_dtypes and rng.random() < int_dtypes:
+        # integer-typed criteria: all of them, or some of them next to float (possibly fractional) ones.  A criterion
+        # that becomes integer-typed gets integral values first
+        allint = rng.random() < 0.4
+        dts = ["int64" if allint or rng.random() < 0.5 else "float64" for _ in range(m)]
+        if "int64" not in dts:
+            dts[rng.randrange(m)] = "int64"
+        for j in range(m):
+            if dts[j] == "int64":
+                for r in mtx:
+                    v = float(round(r[j]))
+                    r[j] = (1.0 if positive and v < 1 else v)
+        c["dtypes"] = dts
         c["tags"] = list(tags) + ["int_dtypes"]
     return c
 
